@@ -228,6 +228,12 @@ let () =
               let db = rep s clause in let evs = rep s levent in
               let (n, ok) = check_analyses db evs in
               Printf.sprintf "%d %s" (int_of_n n) (b ok)
+            | "unsolv" ->
+              (* db levents conf core -> conflict-equals-the-model side-conditions-of-core_unsat *)
+              let db = rep s clause in let evs = rep s levent in
+              let conf = nextn s in let core = nlist s in
+              let (eq, ok) = check_unsolvable db evs conf core in
+              Printf.sprintf "%s %s" (b eq) (b ok)
             | "logsat" ->
               (* U P log sol -> db-ok run-ok sat-ok [first bad clause index | -] *)
               let u = universe s in let p = problem s in let lg = log s in let sol = nlist s in
